@@ -255,6 +255,53 @@ def main():
     sys.exit(rc)
 
 
+def vacuity_pass(units, work, rlimit):
+    """thorough tier: every function under contract gets `assert(false)` as its first statement in a copy of the
+    unit; the probe must fail everywhere. Returns (n_functions, [functions whose entry is unreachable], [problems])"""
+    total = 0
+    unreachable = []
+    problems = []
+    for unit in units:
+        wd = os.path.join(work, 'vacuity')
+        os.makedirs(wd, exist_ok=True)
+        try:
+            g = extract.Gen(REPO, unit, os.path.join(VERIF, 'units', unit + '.vrs'), vacuity=True).run()
+        except LostAnchor as e:
+            problems.append('vacuity pass: lost anchor in unit %s: %s' % (unit, e))
+            continue
+        rs = g.write(wd)
+        gen_text = open(rs).read().split('\n')
+        probes = {}
+        for i, ln in enumerate(gen_text):
+            if 'VACUITY-PROBE ' in ln:
+                probes[i + 1] = ln.split('VACUITY-PROBE ')[1].strip()
+        cmd = ['verus', os.path.basename(rs), '--error-format=json', '--multiple-errors', '2', '--rlimit', str(rlimit)]
+        try:
+            rc, out, err, wall = sh(cmd, cwd=wd, timeout=1500)
+        except subprocess.TimeoutExpired:
+            problems.append('vacuity pass: verus timed out on unit ' + unit)
+            continue
+        hit = set()
+        for raw in err.split('\n'):
+            raw = raw.strip()
+            if not raw.startswith('{'):
+                continue
+            try:
+                d = json.loads(raw)
+            except Exception:
+                continue
+            if d.get('level') != 'error' or 'assertion failed' not in d.get('message', ''):
+                continue
+            for sp in d.get('spans', []):
+                if sp.get('line_start') in probes:
+                    hit.add(sp['line_start'])
+        total += len(probes)
+        for ln, fn in probes.items():
+            if ln not in hit:
+                unreachable.append('%s (unit %s)' % (fn, unit))
+    return total, unreachable, problems
+
+
 def decide(pid, pc, tier, seed, work, t0, finder_driver):
     units = pc['units']
     rlimit = CONF.get('rlimit', 20) * (2 if tier == 'thorough' else 1)
@@ -419,7 +466,20 @@ def decide(pid, pc, tier, seed, work, t0, finder_driver):
                            replay_cmd='./check %s --replay %s' % (pid, rp), tree_sha=sha), open(rp, 'w'), indent=1)
             print('VIOLATION property=%s replay=%s obligation=none-failed-but-sampled-replay-on-real-code-found-a-counterexample' % (pid, rp))
             rc = 1
+    vac = None
+    if rc == 0 and tier == 'thorough':
+        # vacuity guard: the entry of every function under contract must be reachable (assert(false) there must fail)
+        vt, vun, vprob = vacuity_pass(units, work, rlimit)
+        vac = dict(functions_probed=vt, entry_unreachable=vun, problems=vprob)
+        if vun or vprob:
+            for x in vun:
+                print('UNDECIDED property=%s reason=vacuous contract: assert(false) at the entry of %s verifies (contradictory precondition or assumption)' % (pid, x))
+            for x in vprob:
+                print('UNDECIDED property=%s reason=%s' % (pid, x))
+            rc = 2
     ev = evidence(pid, pc, tier, seed, t0, mine, discharged, functions, results, smt_ms, verified, failures, undecided, known_hit, new_viol, funcs_time, sha)
+    if vac is not None:
+        ev['coverage']['vacuity_probe'] = vac
     if extra_info is not None:
         ev['coverage']['script_scan'] = dict(files=extra_info['files'], assignments=extra_info['assignments'], violations=len(extra_info['violations']))
     if sampled is not None:
